@@ -13,58 +13,60 @@
          eval_program mods n p = Ret v _ ->
          run (compile p) = v     (after erasing tuple ids to (name, labels))
 
-     normalize_preserves_eval (NOT ATTEMPTED): Simplify.v (C17's model of simplify.rs) works on
-       Ast.v, whose patterns and types are an opaque payload; the evaluator needs them structured
-       and has its own AST (lang/Lang.v), so `eval (normalize_blocks p) = eval p` cannot even be
-       stated between the two files without a translation.  What the check does instead: every
-       compared program is compiled by the real compiler, i.e. AFTER the real normalize_blocks,
-       while the evaluator runs the un-normalised parser output.
+     normalize_preserves_eval is PROVED below (C02_normalize_preserves_eval) for the model
+       lang/LangSimplify.v of simplify.rs with the compiler's options (keep nothing, lift, no
+       grouping); the model is tied to the real `normalize_blocks` by differential runs
+       (`qv_ast --norm` dumps the AST before/after, the extracted model must map one to the other).
 *)
 From Coq Require Import ZArith List Bool.
-From Quiver Require Import lang.Lang lang.LangProofs.
+From Quiver Require Import lang.Lang lang.LangProofs lang.LangSimplify lang.LangSimplifyProofs lang.LangCompile lang.LangCompileProofs.
 Import ListNotations.
 Open Scope Z_scope.
 
-Theorem C02_chain_infallible : forall mods n c e t ts v x e1 w,
-  eval_term mods n c e t v = Ret (x, e1) w ->
-  eval_terms mods (S n) c e (t :: ts) v =
+(* Notation: one level of the evaluator is parameterised by the fuel of the type tests `tf`, by
+   `cf` (calling a function value) and `imf` (importing a module); `call mods n`,
+   `eval_import mods n`, `eval_program mods n`, `eval mods n` tie the knot on the fuel. *)
+
+Theorem C02_chain_infallible : forall tf cf imf c e t ts v x e1 w,
+  eval_term tf cf imf c t e v = Ret (x, e1) w ->
+  eval_chain tf cf imf c (Chain None (t :: ts)) e v =
   tick w (tick (match t, ts with
                 | Match _, _ :: _ => if is_nil x then ev_mid_fail else st0
                 | _, _ => st0
-                end) (eval_terms mods n c e1 ts x)).
+                end) (eval_chain tf cf imf c (Chain None ts) e1 x)).
 Proof. exact chain_infallible. Qed.
 Print Assumptions C02_chain_infallible.
 
-Theorem C02_sequence_short_circuit : forall mods n c e ch rest v x e1 w,
+Theorem C02_sequence_short_circuit : forall tf cf imf c e ch rest v x e1 w,
   rest <> [] ->
-  eval_chain mods n c e ch v = Ret (x, e1) w -> is_nil x = true ->
-  eval_seq mods (S n) c e (ch :: rest) v = Ret (vnil, e1) (st_add w ev_short).
+  eval_chain tf cf imf c ch e v = Ret (x, e1) w -> is_nil x = true ->
+  eval_sequence tf cf imf c (Sequence (ch :: rest)) e v = Ret (vnil, e1) (st_add w ev_short).
 Proof. exact sequence_short_circuit. Qed.
 Print Assumptions C02_sequence_short_circuit.
 
-Theorem C02_branch_fallthrough : forall mods n c e cond conseq rest v x e1 w,
-  eval_seq mods n c e (seq_chains cond) v = Ret (x, e1) w -> is_nil x = true ->
-  eval_branches mods (S n) c e (Branch cond conseq :: rest) v =
-  tick w (tick ev_fallthrough (eval_branches mods n c e rest v)).
+Theorem C02_branch_fallthrough : forall tf cf imf c e cond conseq rest v x e1 w,
+  eval_sequence tf cf imf c cond e v = Ret (x, e1) w -> is_nil x = true ->
+  eval_expr tf cf imf c (Expression (Branch cond conseq :: rest)) e v =
+  tick w (tick ev_fallthrough (eval_expr tf cf imf c (Expression rest) e v)).
 Proof. exact branch_fallthrough. Qed.
 Print Assumptions C02_branch_fallthrough.
 
-Theorem C02_consequence_commits : forall mods n c e cond k rest v x e1 w y e2 w2,
-  eval_seq mods n c e (seq_chains cond) v = Ret (x, e1) w -> is_nil x = false ->
-  eval_seq mods n c e1 (seq_chains k) v = Ret (y, e2) w2 ->
-  exists w', eval_branches mods (S n) c e (Branch cond (Some k) :: rest) v = Ret y w'.
+Theorem C02_consequence_commits : forall tf cf imf c e cond k rest v x e1 w y e2 w2,
+  eval_sequence tf cf imf c cond e v = Ret (x, e1) w -> is_nil x = false ->
+  eval_sequence tf cf imf c k e1 v = Ret (y, e2) w2 ->
+  exists w', eval_expr tf cf imf c (Expression (Branch cond (Some k) :: rest)) e v = Ret y w'.
 Proof. exact consequence_commits. Qed.
 Print Assumptions C02_consequence_commits.
 
-Theorem C02_block_scoping : forall mods n c e b v r e' w,
-  eval_term mods n c e (Block b) v = Ret (r, e') w -> e' = e.
+Theorem C02_block_scoping : forall tf cf imf c e b v r e' w,
+  eval_term tf cf imf c (Block b) e v = Ret (r, e') w -> e' = e.
 Proof. exact block_scoping. Qed.
 Print Assumptions C02_block_scoping.
 
-Theorem C02_closure_captures_by_value : forall mods n c e f clo v,
+Theorem C02_closure_captures_by_value : forall tf cf imf c e f clo v,
   lookup_var f e = Some clo ->
-  eval_term mods (S (S n)) c e (Access (mkAccess (Some (Identifier f)) [])) v =
-  with_env e (tick st0 (if is_callable clo then call mods n clo (tail_arg clo v) st0 else ret clo)).
+  eval_term tf cf imf c (Access (mkAccess (Some (Identifier f)) [])) e v =
+  with_env e (tick st0 (if is_callable clo then cf clo (tail_arg clo v) st0 else ret clo)).
 Proof. exact closure_captures_by_value. Qed.
 Print Assumptions C02_closure_captures_by_value.
 
@@ -79,8 +81,8 @@ Theorem C02_eval_program_fuel_mono : forall mods n m p r,
 Proof. exact eval_program_fuel_mono. Qed.
 Print Assumptions C02_eval_program_fuel_mono.
 
-(* ... for every judgement of the evaluator (terms, calls, chains, sequences, branches, fields,
-   string segments, imports, programs) *)
+(* ... for the two judgements that consume fuel (function calls with their tail-call loop, and
+   imports), and for one level in its parameters *)
 Theorem C02_fuel_mono_all_judgements : forall mods n m, (n <= m)%nat -> mono_at mods n m.
 Proof. exact mono_all. Qed.
 Print Assumptions C02_fuel_mono_all_judgements.
@@ -119,3 +121,113 @@ Theorem C02_match_binds_only_binders : forall n c e p v e' w,
   exists d, e' = d ++ e /\ incl (map fst d) (binders p).
 Proof. exact match_binds_only_binders. Qed.
 Print Assumptions C02_match_binds_only_binders.
+
+(* ------------------------------------------------------------------------------------------
+   simplify.rs block normalisation preserves the reference semantics. *)
+
+(* the evaluator does not see a redundant block spliced into its chain ... *)
+Theorem C02_splice_noop : forall tf cf imf c ts e v,
+  eqv (terms_with (eval_term tf cf imf c) (splice ts) e v) (terms_with (eval_term tf cf imf c) ts e v).
+Proof. exact splice_noop. Qed.
+Print Assumptions C02_splice_noop.
+
+(* ... nor a multi-step binding-free block lifted into its sequence *)
+Theorem C02_lift_noop : forall tf cf imf c cs e v,
+  eqv (seq_with (eval_chain tf cf imf c) (lift_chains cs) e v) (seq_with (eval_chain tf cf imf c) cs e v).
+Proof. exact lift_noop. Qed.
+Print Assumptions C02_lift_noop.
+
+(* at EVERY fuel the normalised program (with normalised modules) has the same outcome — value,
+   tail call, error or out-of-fuel — as the program, up to the event counters (`erase`) and to
+   normalising the bodies of the function values inside the result (`nv`) *)
+Theorem C02_normalize_preserves_eval : forall mods n p,
+  erase (eval_program (nmods mods) n (normalize p)) = erase (rmap nv (eval_program mods n p)).
+Proof. exact normalize_preserves_eval. Qed.
+Print Assumptions C02_normalize_preserves_eval.
+
+(* a result without function values is literally the same value *)
+Theorem C02_normalize_preserves_value : forall mods n p v w,
+  eval_program mods n p = Ret v w -> closure_free v ->
+  exists w', eval_program (nmods mods) n (normalize p) = Ret v w'.
+Proof. exact normalize_preserves_value. Qed.
+Print Assumptions C02_normalize_preserves_value.
+
+Theorem C02_normalize_preserves_termination : forall mods n p,
+  eval_program (nmods mods) n (normalize p) = Timeout <-> eval_program mods n p = Timeout.
+Proof. exact normalize_preserves_termination. Qed.
+Print Assumptions C02_normalize_preserves_termination.
+
+(* the same for calling a function value and for importing a module *)
+Theorem C02_call_import_norm : forall mods n,
+  (forall f a acc acc', sim nv (call (nmods mods) n (nv f) (nv a) acc') (call mods n f a acc)) /\
+  (forall path, sim nv (eval_import (nmods mods) n path) (eval_import mods n path)).
+Proof. exact call_import_norm. Qed.
+Print Assumptions C02_call_import_norm.
+
+(* ------------------------------------------------------------------------------------------
+   Compile slice: for a small fragment (integer literals, tuples without spreads, positional
+   access on the flow and on identifiers, bare binders, chains, sequences) the code generation of
+   compiler.rs is mirrored by lang/LangCompile.v (compared with the real compiler's bytecode on
+   every run) and PROVED to simulate the reference evaluator on the VM model vm/Vm.v (C07's).
+
+   SIM P fn C caps shapes base rest pers ev c sc sc' (LangCompileProofs.v) reads: whenever the
+   evaluator judgement `ev e v` yields (v', e'), the machine of function `fn`, whose code C holds
+   `c` at pc, started with a value related to v on top of ANY stack and locals related to the scope
+   sc/e above any `base` locals, runs to pc + |c| with a value related to v' on top of the same
+   stack and locals related to sc'/e'. *)
+Theorem C02_compile_simulates :
+  forall (P : Quiver.vm.Bytecode.program) (fn : nat) (C : list Quiver.vm.Bytecode.instr) (caps : nat),
+    nth_error (Quiver.vm.Bytecode.p_funcs P) fn = Some (Quiver.vm.Bytecode.Build_func C caps) ->
+    forall (pool : list Z) (shapes : list shape),
+    (forall z k, const_index pool z = Some k -> nth_error (Quiver.vm.Bytecode.p_consts P) k = Some (Quiver.vm.Bytecode.CInt z)) ->
+    (forall sh t, shape_index shapes sh = Some t -> nth_error (Quiver.vm.Bytecode.p_tuples P) t = Some (length (snd sh))) ->
+    (exists r, shapes = nil_shape :: ok_shape :: r) ->
+    forall (base : nat) (rest : list Quiver.vm.Vm.frame) (pers : bool) tf cf imf,
+    (forall t ctx sc c sc', compile_term pool shapes sc t = Some (c, sc') ->
+                            SIM P fn C caps shapes base rest pers (eval_term tf cf imf ctx t) c sc sc') /\
+    (forall ch ctx sc c sc', compile_chain pool shapes sc ch = Some (c, sc') ->
+                             SIM P fn C caps shapes base rest pers (eval_chain tf cf imf ctx ch) c sc sc').
+Proof. exact compile_simulates. Qed.
+Print Assumptions C02_compile_simulates.
+
+(* whole programs: the VM started as spawn_process starts it reaches the end of the compiled
+   code with the evaluator's value on the stack, pops the frame and finishes with that value *)
+Theorem C02_compile_program_correct :
+  forall (P : Quiver.vm.Bytecode.program) (fn : nat) (pool : list Z) (shapes : list shape) (p : program)
+         (code : list Quiver.vm.Bytecode.instr) (pers : bool),
+    compile_program pool shapes p = Some code ->
+    nth_error (Quiver.vm.Bytecode.p_funcs P) fn = Some (Quiver.vm.Bytecode.Build_func code 0) ->
+    (forall z k, const_index pool z = Some k -> nth_error (Quiver.vm.Bytecode.p_consts P) k = Some (Quiver.vm.Bytecode.CInt z)) ->
+    (forall sh t, shape_index shapes sh = Some t -> nth_error (Quiver.vm.Bytecode.p_tuples P) t = Some (length (snd sh))) ->
+    (exists r, shapes = nil_shape :: ok_shape :: r) ->
+    forall mods n v w, eval_program mods n p = Ret v w ->
+    exists mv ls,
+      vrel shapes v mv /\
+      star P (Quiver.vm.Vm.init_state fn [] Quiver.vm.Bytecode.vnil pers) (st fn 0 0 [] pers (length code) [mv] ls) /\
+      (forall x, Quiver.vm.Vm.step P (st fn 0 0 [] pers (length code) [mv] ls) x =
+                 Quiver.vm.Vm.Next (Quiver.vm.Vm.Build_state [mv] (if pers then ls else []) [] pers)) /\
+      (forall x, Quiver.vm.Vm.step P (Quiver.vm.Vm.Build_state [mv] (if pers then ls else []) [] pers) x =
+                 Quiver.vm.Vm.Finished mv (Quiver.vm.Vm.Build_state [] (if pers then ls else []) [] pers)).
+Proof. exact compile_program_correct. Qed.
+Print Assumptions C02_compile_program_correct.
+
+(* what the compiler does — normalise the blocks, then generate code — computes the value the
+   reference evaluator assigns to the ORIGINAL program *)
+Theorem C02_normalize_then_compile_correct :
+  forall (P : Quiver.vm.Bytecode.program) (fn : nat) (pool : list Z) (shapes : list shape) (p : program)
+         (code : list Quiver.vm.Bytecode.instr) (pers : bool),
+    compile_program pool shapes (normalize p) = Some code ->
+    nth_error (Quiver.vm.Bytecode.p_funcs P) fn = Some (Quiver.vm.Bytecode.Build_func code 0) ->
+    (forall z k, const_index pool z = Some k -> nth_error (Quiver.vm.Bytecode.p_consts P) k = Some (Quiver.vm.Bytecode.CInt z)) ->
+    (forall sh t, shape_index shapes sh = Some t -> nth_error (Quiver.vm.Bytecode.p_tuples P) t = Some (length (snd sh))) ->
+    (exists r, shapes = nil_shape :: ok_shape :: r) ->
+    forall mods n v w, eval_program mods n p = Ret v w -> closure_free v ->
+    exists mv ls,
+      vrel shapes v mv /\
+      star P (Quiver.vm.Vm.init_state fn [] Quiver.vm.Bytecode.vnil pers) (st fn 0 0 [] pers (length code) [mv] ls) /\
+      (forall x, Quiver.vm.Vm.step P (st fn 0 0 [] pers (length code) [mv] ls) x =
+                 Quiver.vm.Vm.Next (Quiver.vm.Vm.Build_state [mv] (if pers then ls else []) [] pers)) /\
+      (forall x, Quiver.vm.Vm.step P (Quiver.vm.Vm.Build_state [mv] (if pers then ls else []) [] pers) x =
+                 Quiver.vm.Vm.Finished mv (Quiver.vm.Vm.Build_state [] (if pers then ls else []) [] pers)).
+Proof. exact normalize_then_compile_correct. Qed.
+Print Assumptions C02_normalize_then_compile_correct.
